@@ -11,7 +11,7 @@
       type alone (F27, repaired by ace4a06) are described in comments: the model has no pool, and
       it has one struct type per tag view, so neither is expressible as a switch. *)
 From Coq Require Import List ZArith Bool String Ascii.
-From GZ Require Import C08.Model C08.Spec C08.KModel C08.KSpec C08.Rounding C08.ReqModel.
+From GZ Require Import C08.Model C08.Spec C08.KModel C08.KSpec C08.Rounding C08.ReqModel C08.SrcModel.
 Import ListNotations.
 Open Scope Z_scope.
 Open Scope string_scope.
@@ -215,3 +215,61 @@ Example drop_in_place_now :
   (ids_request [""; "2"; "3"],
    [CAccepted [ints [2; 3]]; CAccepted [VStruct []; ints [2; 3]; VStruct []; VStruct []]; CAccepted [ints [2; 3]]]).
 Proof. vm_compute. reflexivity. Qed.
+
+(* ------------------------------------------------------------------ asking the type which sources it uses, IsExported first
+
+   6. Seeded change C08-11: httpx.Parse skipped ParsePath / ParseForm / ParseHeaders for the tag
+      keys that a scan of the request type did not find; the scan began with
+      `if !field.IsExported() { continue }`, the unmarshaller looks at Anonymous first
+      (SrcModel.v: [scan_exported_first] against [reads]).  reqFormU of harness/cmd/c08/types.go:
+        type pagingF struct{ Page int `form:"page"`; Size int `form:"size,range=[1:100]"`; Sort string `form:"sort,default=asc,options=asc|desc"` }
+        type reqFormU struct{ pagingF; Filter string `json:"filter,optional"` } *)
+
+Definition req_form_u : list decl :=
+  [DEmbed false [DField true ["form"]; DField true ["form"]; DField true ["form"]]; DField true ["json"]].
+
+Theorem exported_first_scan_refuted :
+  exists t k, type_reads k t = true /\ type_scanned k t = false.
+Proof. exists req_form_u, "form". vm_compute. split; reflexivity. Qed.
+
+Definition paging_fields : fields :=
+  FCons "page" None (TPrim (KInt W0))
+ (FCons "size" (Some (mkOpts false None None (Some r100) [] false)) (TPrim (KInt W0))
+ (FCons "sort" (Some (mkOpts false None (Some "asc") None ["asc"; "desc"] false)) (TPrim KStr) FNil)).
+Definition filter_field : fields := FCons "filter" (Some (mkOpts true None None None [] false)) (TPrim KStr) FNil.
+Definition req_form_u_views : views :=
+  mkViews (FEmbed false false FNil FNil) (FEmbed false false paging_fields FNil) (FEmbed false false FNil FNil)
+          (FEmbed false false FNil filter_field).
+Definition list_request (params : rform) : hrequest := mkHReq [] params [] (Some (JObj [])).
+(* what the IsExported-first scan answers for reqFormU: no path, no form, no header *)
+Definition scanned_form_u : consulted :=
+  mkConsulted (type_scanned "path" req_form_u) (type_scanned "form" req_form_u) (type_scanned "header" req_form_u).
+
+(* ?page=2&size=500 : outside range=[1:100], accepted, nothing stored *)
+Theorem skipped_source_sound_refuted :
+  exists r vs,
+    serve_skipping 2048 scanned_form_u r req_form_u_views None = CAccepted vs /\
+    pass_fine (pass_form 2048 req_form_u_views r) = false /\
+    serve_call (call_on 2048 r (mkLook (EParse None) req_form_u_views)) = CRejected false.
+Proof. exists (list_request [("page", ["2"]); ("size", ["500"])]). eexists. vm_compute. repeat split. Qed.
+
+(* ?size=50 : the required page is missing, accepted *)
+Theorem skipped_source_required_refuted :
+  exists r vs,
+    serve_skipping 2048 scanned_form_u r req_form_u_views None = CAccepted vs /\
+    serve_call (call_on 2048 r (mkLook (EParse None) req_form_u_views)) = CRejected false.
+Proof. exists (list_request [("size", ["50"])]). eexists. vm_compute. split; reflexivity. Qed.
+
+(* ?page=2&size=50 : valid, accepted, but the supplied values and the default are not in the target *)
+Theorem skipped_source_exact_refuted :
+  exists r vs ws,
+    serve_skipping 2048 scanned_form_u r req_form_u_views None = CAccepted vs /\
+    serve_call (call_on 2048 r (mkLook (EParse None) req_form_u_views)) = CAccepted ws /\ vs <> ws.
+Proof. exists (list_request [("page", ["2"]); ("size", ["50"])]). eexists. eexists. vm_compute. repeat split. discriminate. Qed.
+
+(* the current code consults every source *)
+Example all_sources_now :
+  serve_skipping 2048 all_sources (list_request [("page", ["2"]); ("size", ["500"])]) req_form_u_views None = CRejected false /\
+  serve_skipping 2048 all_sources (list_request [("page", ["2"]); ("size", ["50"])]) req_form_u_views None =
+    CAccepted [VStruct [VStruct []]; VStruct [VStruct [VInt 2; VInt 50; VStr "asc"]]; VStruct [VStruct []]; VStruct [VStruct []; VStr ""]].
+Proof. vm_compute. split; reflexivity. Qed.
